@@ -257,8 +257,10 @@ def pointer (legacy : Bool) : List Char := if legacy then ['>', ' '] else ['❱'
 def Row.render (ncw : Nat) (legacy : Bool) (r : Row) : List Char :=
   (if r.marked then pointer legacy else [' ', ' ']) ++ rjust (natStr r.num) (ncw - 2) ++ ' ' :: r.body
 
-def numberRows (start : Nat) (hl : List Nat) (bodies : List Line) : List Row :=
-  bodies.zipIdx.map (fun (b, i) => { num := start + i, marked := hl.contains (start + i), body := b })
+/-- `for line_no, line in enumerate(lines, start)`: consecutive numbers; the marker is `line_no in highlight_lines`. -/
+def numberRows (start : Nat) (hl : List Nat) : List Line → List Row
+  | [] => []
+  | b :: bs => { num := start, marked := hl.contains start, body := b } :: numberRows (start + 1) hl bs
 
 /-- The logical lines that get a number (after range selection and indent guides), before fitting. -/
 def selectedLines (skipRaises : Bool) (o : Opts) (found : Bool) (lex : List Char → List Line) (code : List Char) :
